@@ -116,6 +116,71 @@ mod c_heap {
     }
 }
 
+// ------------------------------------------------- faults while a request runs
+//
+// The mock hands out pointers that do not point to memory. A transparent wrapper only passes them on;
+// one that reads or writes through them (e.g. zeroing a block itself instead of forwarding
+// `alloc_zeroed`) dies with SIGSEGV / SIGBUS. The handler turns that into a verdict: it prints the RESULT
+// line prepared for the case that is running and exits with the violation status.
+
+mod fault {
+    use std::ffi::{c_int, c_void};
+    use std::sync::atomic::{AtomicUsize, Ordering::SeqCst};
+
+    const CAP: usize = 8192;
+    static mut MESSAGE: [u8; CAP] = [0; CAP];
+    static LEN: AtomicUsize = AtomicUsize::new(0);
+
+    #[repr(C)]
+    struct SigAction {
+        handler: usize,
+        mask: [u64; 16],
+        flags: c_int,
+        restorer: usize,
+    }
+
+    extern "C" {
+        fn sigaction(signum: c_int, act: *const SigAction, old: *mut SigAction) -> c_int;
+        fn write(fd: c_int, buf: *const c_void, n: usize) -> isize;
+        fn _exit(code: c_int) -> !;
+    }
+
+    extern "C" fn on_fault(_: c_int) {
+        unsafe {
+            let n = LEN.load(SeqCst);
+            if n > 0 {
+                let p = std::ptr::addr_of!(MESSAGE) as *const c_void;
+                write(1, p, n);
+                _exit(1);
+            }
+            _exit(139);
+        }
+    }
+
+    pub fn install() {
+        let act = SigAction { handler: on_fault as usize, mask: [0; 16], flags: 0, restorer: 0 };
+        unsafe {
+            sigaction(11, &act, std::ptr::null_mut()); // SIGSEGV
+            sigaction(7, &act, std::ptr::null_mut()); // SIGBUS
+        }
+    }
+
+    /// Prepares the line printed if the requests issued next fault.
+    pub fn arm(line: &str) {
+        let bytes = line.as_bytes();
+        let n = bytes.len().min(CAP);
+        unsafe {
+            let p = std::ptr::addr_of_mut!(MESSAGE) as *mut u8;
+            std::ptr::copy_nonoverlapping(bytes.as_ptr(), p, n);
+        }
+        LEN.store(n, SeqCst);
+    }
+
+    pub fn disarm() {
+        LEN.store(0, SeqCst);
+    }
+}
+
 // ---------------------------------------------------------------------- mock
 
 const LOG_CAP: usize = 16;
@@ -354,7 +419,17 @@ fn req_from(v: &serde_json::Value) -> Req {
 }
 
 fn check(r: &Report, seq: &[Req], phase: usize, index: u64) {
+    let case = json!({"phase": phase, "requests": seq.iter().map(req_json).collect::<Vec<_>>()});
+    fault::arm(&format!(
+        "\nRESULT {}\n",
+        json!({"name": "c09", "states": 1, "transitions": 1, "traces_validated_against_impl": 1, "evaluations": 1, "excluded": 0,
+               "exhaustive": false, "distinct_outcomes": 1, "samples": [], "bounds": {}, "wall_s": 0.0,
+               "violations": [{"sig": {"class": "touches-returned-pointer"},
+                               "text": format!("AllocProfiler is not transparent in phase {}: while serving {:?} the process faulted (SIGSEGV / SIGBUS): the profiler read or wrote through a pointer it got from the wrapped allocator (or was given by the caller) instead of only passing it on", PHASES[phase], seq.iter().map(req_json).collect::<Vec<_>>()),
+                               "case": case}]})
+    ));
     let (res, v) = run_in_phase(seq, phase);
+    fault::disarm();
     r.case(seq.len() as u64);
     r.outcome(format!("{phase}:{:?}:{}", seq.iter().map(|q| q.op).collect::<Vec<_>>(), res.0.iter().filter(|p| **p != 0).count()));
     r.sample(index, || json!({"phase": PHASES[phase], "requests": seq.iter().map(req_json).collect::<Vec<_>>(), "returned": res.0[..seq.len()].iter().map(|p| p.to_string()).collect::<Vec<_>>()}));
@@ -377,6 +452,7 @@ fn check(r: &Report, seq: &[Req], phase: usize, index: u64) {
 }
 
 fn main() {
+    fault::install();
     let cli = Cli::parse();
     mc_seq::quiet_panics();
     let r = Report::new("c09", &cli);
